@@ -55,10 +55,18 @@ type World struct {
 	revChans   []revChan // handler-side channels in callback order
 	eventsDone []bool
 	untagged   []*rpcState
+	raw          *rawPeer
+	parked       []*parkedYield
+	released     bool
 	capLifted    bool
 	mutexBlocked int
 	timers       []time.Time
 	stacksAtHang string
+}
+
+type parkedYield struct {
+	point string
+	ch    chan struct{}
 }
 
 type revChan struct {
@@ -222,7 +230,16 @@ func (w *World) run() {
 	w.settle()
 	w.snapshot("established")
 	w.setPhase("run")
-	w.buildActors()
+	switch {
+	case w.c.Raw != nil && w.c.Raw.Role == "client":
+		w.buildRawClientActors()
+		w.eventsDone = make([]bool, len(w.c.Events))
+		w.holdCarriers()
+	case w.c.Raw != nil && w.c.Raw.Role == "server":
+		w.buildRawServerActors()
+	default:
+		w.buildActors()
+	}
 	w.runTape()
 	w.setPhase("drain1")
 	w.drain()
@@ -237,6 +254,10 @@ func (w *World) run() {
 	}
 	w.setPhase("end")
 	w.liftCapacity()
+	if w.c.Raw != nil {
+		w.rawHangUp()
+		w.snapshot("hungup")
+	}
 	w.endTunnels()
 	w.drain()
 	w.snapshot("ended")
@@ -515,6 +536,18 @@ func (w *World) installYields() {
 			}
 			return
 		}
+		if hit.Kind == "park" {
+			// hold the calling goroutine right here until the schedule releases it ("unpark" action)
+			ch := make(chan struct{})
+			w.mu.Lock()
+			w.parked = append(w.parked, &parkedYield{point: point, ch: ch})
+			w.mu.Unlock()
+			select {
+			case <-ch:
+			case <-w.quit:
+			}
+			return
+		}
 		if hit.Kind == "sleep" && sleepSafe[point] && w.c.Cfg.Cap == 0 && w.c.Cfg.Dir != "nested" && w.c.Cfg.Dir != "nestedrev" {
 			w.sleepers.Add(1)
 			time.Sleep(time.Nanosecond)
@@ -590,8 +623,14 @@ func (w *World) setup() bool {
 	if len(specs) == 0 {
 		specs = []TunnelSpec{{}}
 	}
-	if w.c.Raw != nil || w.c.Reg != nil {
-		return true // raw-peer and registry cases build their own tunnels
+	if w.c.Raw != nil {
+		if w.c.Raw.Role == "server" {
+			return w.setupRawServer()
+		}
+		return w.setupRawClient()
+	}
+	if w.c.Reg != nil {
+		return true // registry cases build their own tunnels
 	}
 	for i := range specs {
 		if !w.openTunnel(specs[i], true) {
@@ -1683,7 +1722,7 @@ func unaryHandler(srv any, ctx context.Context, dec func(any) error, _ grpc.Unar
 	sp := r.spec
 	a := w.newActor(fmt.Sprintf("h%d.main", r.idx), r.idx, "handler")
 	a.inline = true
-	a.stalled = sp.HStallSend || sp.HStallRecv
+	a.stalled = w.stall(sp.HStallSend || sp.HStallRecv)
 	var resp any
 	var retErr error
 	stage, opi := 0, 0
@@ -1814,7 +1853,7 @@ func streamHandlerFor(shape string) grpc.StreamHandler {
 		// receiving side
 		if sp.HRecvs >= 0 {
 			ar := w.newActor(fmt.Sprintf("h%d.recv", r.idx), r.idx, "handler")
-			ar.stalled = sp.HStallRecv
+			ar.stalled = w.stall(sp.HStallRecv)
 			w.mu.Lock()
 			r.hRecvActor = ar
 			w.mu.Unlock()
@@ -1847,7 +1886,7 @@ func streamHandlerFor(shape string) grpc.StreamHandler {
 		// sending side + return, inline on the handler goroutine
 		as := w.newActor(fmt.Sprintf("h%d.send", r.idx), r.idx, "handler")
 		as.inline = true
-		as.stalled = sp.HStallSend
+		as.stalled = w.stall(sp.HStallSend)
 		var retErr error
 		stage, opi := 0, 0
 		extraDone := false
@@ -1943,6 +1982,7 @@ type action struct {
 	actor  *Actor
 	group  int
 	event  int
+	park   *parkedYield
 }
 
 func (w *World) deliveredCount() int {
@@ -1979,6 +2019,9 @@ func (w *World) enabledActions() (acts []action, forced *action) {
 		}
 	}
 	w.mu.Lock()
+	for _, p := range w.parked {
+		acts = append(acts, action{kind: "unpark", park: p})
+	}
 	groups := map[int]bool{}
 	for _, a := range w.actors {
 		if !w.actorEnabledLocked(a) {
@@ -2028,6 +2071,16 @@ func (w *World) apply(a action) {
 		}
 	case "event":
 		w.fire(a.event)
+	case "unpark":
+		w.mu.Lock()
+		for i, p := range w.parked {
+			if p == a.park {
+				w.parked = append(w.parked[:i], w.parked[i+1:]...)
+				close(p.ch)
+				break
+			}
+		}
+		w.mu.Unlock()
 	}
 	w.settle()
 }
@@ -2095,10 +2148,18 @@ func (w *World) drain() {
 
 func (w *World) releaseStalled() {
 	w.mu.Lock()
+	w.released = true
 	for _, a := range w.actors {
 		a.stalled = false
 	}
 	w.mu.Unlock()
+}
+
+// stall reports whether an actor created now should start stalled.
+func (w *World) stall(flag bool) bool {
+	w.mu.Lock()
+	defer w.mu.Unlock()
+	return flag && !w.released
 }
 
 // fire executes event i.
